@@ -536,7 +536,10 @@ fn is_changed_after_unmarking_chemistry(mathml: Element) -> bool {
             // debug!("After merge_element: -- parent{}", mml_to_string(&parent));
 
         } else if let Some(changed_value) = mathml.attribute_value(CHANGED_ATTR) {
-            if changed_value == ADDED_ATTR_VALUE {
+            // Only the invisible operators that canonicalization inserted are removed. Other leaves are real content:
+            //   they inherit the attr when they are lifted into an mrow that cleanup added (e.g., mstyle with an mi and an mspace)
+            if changed_value == ADDED_ATTR_VALUE && name(&mathml) == "mo" &&
+               matches!(as_text(mathml), "\u{2061}" | "\u{2062}" | "\u{2063}" | "\u{2064}") {
                 mathml.remove_from_parent();
                 return true;
             }
